@@ -127,7 +127,7 @@ def check(ctx):
                or repo.dotted(up, c.func) == "builtins.len"]
     bad_pad += [n for n in body_nodes(up.node) if isinstance(n, ast.FormattedValue) and n.format_spec is not None]
     ulens = [c for _, c in calls_in(up) if repo.dotted(up, c.func) == "dataiter.util.ulen"]
-    ok = not bad_pad and len(ulens) >= 2
+    ok = not bad_pad and len(ulens) >= 1
     ctx.ob("SIB-pad", up, f"upad measures with ulen ({len(ulens)} site(s)); code-point based padding: {[norm(b)[:40] for b in bad_pad] or 'none'}",
            bad_pad[0] if bad_pad else up.node, ok,
            "the common width and each cell's padding are display widths" if ok else
